@@ -244,6 +244,68 @@ func c17(r *engine.Report, p *engine.Program) {
 	// the write lock to deregister the socket) must always be able to get through
 	blockingSendsUnderLock(r, p, "R9-no-block-under-lock", scope)
 	bindOnceRule(r, p, "R6-bind-once")
+	// R5b the per-connection unreachable monitor is released by that connection's own done
+	// channel: the channel handed to monitorUnreachable is made in the same function and is the
+	// one stored in the Conn it belongs to
+	{
+		doneF := p.Field("netceptor", "Conn", "doneChan")
+		n := 0
+		p.AllInstrs(func(fn *ssa.Function, in ssa.Instruction) {
+			if engine.IsMock(fn) {
+				return
+			}
+			ci, ok := in.(ssa.CallInstruction)
+			if !ok || !engine.IsCallTo(ci.Common(), "netceptor.monitorUnreachable") {
+				return
+			}
+			n++
+			origin := func(v ssa.Value) ssa.Value {
+				v = engine.Unwrap(v)
+				if u, isU := v.(*ssa.UnOp); isU && u.Op == token.MUL {
+					if al, isAl := u.X.(*ssa.Alloc); isAl {
+						var sv ssa.Value
+						ns := 0
+						if refs := al.Referrers(); refs != nil {
+							for _, rr := range *refs {
+								if st, isS := rr.(*ssa.Store); isS && st.Addr == ssa.Value(al) {
+									sv = engine.Unwrap(st.Val)
+									ns++
+								}
+							}
+						}
+						if ns == 1 {
+							return sv
+						}
+					}
+				}
+				return v
+			}
+			arg := origin(ci.Common().Args[1])
+			_, local := arg.(*ssa.MakeChan)
+			stored := false
+			if local && doneF != nil {
+				outer := engine.Outermost(fn)
+				var scan func(f *ssa.Function)
+				scan = func(f *ssa.Function) {
+					for _, a := range engine.FieldAccessesIn(f, doneF) {
+						if st, isS := a.Instr.(*ssa.Store); isS && origin(st.Val) == arg {
+							stored = true
+						}
+					}
+					for _, an := range f.AnonFuncs {
+						scan(an)
+					}
+				}
+				scan(outer)
+			}
+			r.Check("R5-goroutine-arms", fmt.Sprintf("%s: monitorUnreachable is released by the connection's own done channel", engine.FuncName(fn)), ci.Pos(), local && stored,
+				"the done channel passed is made in this function and stored in the Conn being set up (Conn.Close / CloseConnection close it)",
+				"the monitor is tied to a channel other than the new connection's own done channel (e.g. the listener's): closing the connection releases nothing — one subscription and three goroutines stay behind per past connection")
+		})
+		if n < 2 {
+			r.Broken("monitorUnreachable call sites: %d found, expected 2 (DialContext, acceptLoop)", n)
+		}
+	}
 
 	// R5b forwarders of broker subscriptions drain until the broker closes the subscription: their only
 	// exit is the "channel closed" edge (an earlier exit leaves a delivery pending and wedges the broker)
